@@ -20,6 +20,11 @@ CLAIMS = {
          "Dependent-variable values in the reported state are characterised through eval_deps (see C04)."),
 }
 
+CLAIMS["C14"] = ("7.14", "Theorems by induction over arbitrary relax/restore histories of the model state machine: active + removed is conserved as a multiset of (id, function, equality, metadata) records; ids stay unique (each id in exactly one list); nothing else of the instance changes; the reason is recorded; an operation fails iff the id is not in the expected list and then changes nothing; feasible_relaxed <=> all active hold, feasible <=> all constraints hold, hence overall feasibility is invariant under every history. Correspondence: histories observed after every step (result, both lists, full evaluation judged by the C05 model); thorough: all histories of length <= 4 over 3 ids + 1 unknown id.",
+         "Per-constraint value invariance follows from conservation plus C05_constraints (values depend only on the constraint and the state); it is checked on every step by the runner.")
+CLAIMS["C20"] = ("7.20", "proof (partial): theorems C20_layers, C20_get(_first/_unknown/_first_match), C20_manifest_accept/reject, C20_descriptors_by_kind, C20_annotations_* hold for all operation sequences and annotation histories of a list-state-machine model of Builder/Artifact/annotations; the archive bytes (tar, JSON manifest, sha256, protobuf, RFC3339) are not modelled and enter only as hypotheses (digest injective on the stored blobs, decode.encode = id, parse.render = id) that the correspondence run re-checks on every case. Correspondence: real local OCI archives built with Builder and reopened with Artifact::from_oci_archive; every getter x every stored digest + one unknown digest; independent sha256 and RFC3339 re-computation in Python; non-OMMX archives.",
+         "Identical blobs share a digest, so only the first layer's kind and annotations are reachable by digest (observation, not a violation). -0.0 in map values is read back as +0.0 by prost (identified with 0, DESIGN 3.2). ocipkg, tar, sha256, file system: exhibited by correspondence only.")
+
 PENDING = {
 }
 
